@@ -235,7 +235,7 @@ class RectilinearMesh(_StructuredMeshBase):
         if not basic_check:
             return basic_check
 
-        for direction in range(self._dimension):
+        for direction in range(len(self._ordinates)):
             if not FuzzyEquality(rel_tol=self.relative_tolerance, abs_tol=self.absolute_tolerance)(
                 self._ordinates[direction], other._ordinates[direction]
             ):
